@@ -39,7 +39,8 @@ type Prog struct {
 type Func struct {
 	Key  string
 	Pkg  *packages.Package
-	Decl *ast.FuncDecl
+	Decl *ast.FuncDecl // canonicalised copy (see canon.go); Orig is the declaration as written
+	Orig *ast.FuncDecl
 	Obj  *types.Func
 }
 
@@ -101,18 +102,25 @@ func Load(root string) (*Prog, error) {
 				if obj == nil {
 					continue
 				}
-				fn := &Func{Key: FuncKey(obj), Pkg: pkg, Decl: fd, Obj: obj}
+				fn := &Func{Key: FuncKey(obj), Pkg: pkg, Decl: fd, Orig: fd, Obj: obj}
 				p.Funcs[fn.Key] = fn
 				p.declOf[obj] = fn
-				if fd.Body != nil {
-					ast.Inspect(fd.Body, func(n ast.Node) bool {
-						if fl, ok := n.(*ast.FuncLit); ok {
-							p.enclosing[fl] = fn
-						}
-						return true
-					})
-				}
 			}
+		}
+	}
+	p.canonicaliseAll()
+	for _, fn := range p.Funcs {
+		for _, d := range []*ast.FuncDecl{fn.Orig, fn.Decl} {
+			if d == nil || d.Body == nil {
+				continue
+			}
+			fn := fn
+			ast.Inspect(d.Body, func(n ast.Node) bool {
+				if fl, ok := n.(*ast.FuncLit); ok {
+					p.enclosing[fl] = fn
+				}
+				return true
+			})
 		}
 	}
 	return p, nil
